@@ -254,6 +254,15 @@ func c04Run(c *Ctx) {
 		return
 	}
 	special := ""
+	if c.K%5 == 1 {
+		// commands whose Execute asks for help itself: with PrintErrors that text goes to standard output, once,
+		// whether or not the built-in help flag is enabled
+		for _, cm := range d.Cmds[1:] {
+			if cm.Exec && r.Chance(1, 2) {
+				cm.ExecHelp = true
+			}
+		}
+	}
 	if c.K%97 == 5 {
 		// a no-argument option that carries choice tags: a declaration the library accepts
 		for _, o := range d.Opts {
@@ -298,11 +307,15 @@ func c04Run(c *Ctx) {
 	}
 	if o.FErr != nil {
 		t := o.FErr.Type
-		if !anyOptLike && (t == flags.ErrUnknownFlag || t == flags.ErrExpectedArgument || t == flags.ErrNoArgumentForBool || t == flags.ErrHelp) {
+		appHelp := false
+		for _, cm := range d.Cmds {
+			appHelp = appHelp || cm.ExecHelp
+		}
+		if !anyOptLike && (t == flags.ErrUnknownFlag || t == flags.ErrExpectedArgument || t == flags.ErrNoArgumentForBool || (t == flags.ErrHelp && !appHelp)) {
 			c.Violate("implication:no-option-token:"+t.String(), "no token has option syntax but the error is %s: %s", t, clip(o.FErr.Message, 200))
 			return
 		}
-		if opts&flags.HelpFlag == 0 && t == flags.ErrHelp {
+		if opts&flags.HelpFlag == 0 && t == flags.ErrHelp && !appHelp {
 			c.Violate("implication:help-without-helpflag", "ErrHelp although HelpFlag is not set")
 			return
 		}
@@ -344,18 +357,23 @@ func c04Run(c *Ctx) {
 func c04SingleFault(c *Ctx) {
 	r := c.R
 	// unknown-option .. bad-choice, then a failing callback and bad values arriving through the environment
-	fault := append(append([]string{}, c09Faults[1:12]...), "callback-error", "bad-env-value", "bad-env-choice")[(c.K/4)%14]
-	opts := []flags.Options{flags.HelpFlag, flags.HelpFlag | flags.PassDoubleDash, flags.Default, flags.HelpFlag | flags.PrintErrors, flags.PassDoubleDash, 0}[(c.K/44)%6]
+	fault := append(append([]string{}, c09Faults[1:12]...), "callback-error", "bad-env-value", "bad-env-choice", "application-help")[(c.K/4)%15]
+	opts := []flags.Options{flags.HelpFlag, flags.HelpFlag | flags.PassDoubleDash, flags.Default, flags.HelpFlag | flags.PrintErrors, flags.PassDoubleDash, 0, flags.PrintErrors, flags.PrintErrors | flags.PassDoubleDash}[(c.K/60)%8]
 	if c.W.Tier == "race" {
 		opts &^= flags.PrintErrors
 	}
 	cfg := c09CfgFor(fault)
+	if fault == "application-help" {
+		cfg.PExec = 100
+	}
 	if (fault == "help" || fault == "help-in-cluster") && opts&flags.HelpFlag == 0 {
 		opts |= flags.HelpFlag
 	}
 	cfg.ParserOpts = []flags.Options{opts}
-	cfg.PExec = 50
-	cfg.Types = append(append([]TypeSpec{}, cfg.Types...), TypeSpec{K: KInt8}, TypeSpec{K: KUint16, W: WSlice}, TypeSpec{K: KCelsius}, TypeSpec{K: KInt, W: WPtr}, TypeSpec{K: KInt, W: WFunc1}, TypeSpec{K: KString, W: WFunc1Err})
+	if fault != "application-help" {
+		cfg.PExec = 50
+	}
+	cfg.Types = append(append([]TypeSpec{}, cfg.Types...), TypeSpec{K: KInt8}, TypeSpec{K: KUint16, W: WSlice}, TypeSpec{K: KCelsius}, TypeSpec{K: KInt, W: WPtr}, TypeSpec{K: KInt, W: WFunc1}, TypeSpec{K: KString, W: WFunc1Err}, TypeSpec{K: KString, W: WFunc1PErr})
 	d := GenDecl(c.Sub("d"), cfg)
 	var target *Cmd
 	if len(d.Cmds) > 1 {
@@ -379,9 +397,24 @@ func c04SingleFault(c *Ctx) {
 		c.Unspec("base vector leaves positional constraints unmet")
 		return
 	}
-	items, wantType, pos, pi, _, ok := injectFault(c, r, d, sc, fault)
-	if !ok {
-		return
+	var items []*Item
+	var wantType flags.ErrorType
+	pos, pi := 0, 0
+	if fault == "application-help" {
+		// the innermost command's Execute returns a *flags.Error of type ErrHelp: not a fault of the vector, but
+		// the documented type and (with PrintErrors) the documented stream are the same as for the built-in help
+		if !sc.Final.Exec || sc.Final.Parent == nil {
+			c.Unspec("no executable command at the end of the vector")
+			return
+		}
+		sc.Final.ExecHelp = true
+		items, wantType = sc.Items, flags.ErrHelp
+	} else {
+		var ok bool
+		items, wantType, pos, pi, _, ok = injectFault(c, r, d, sc, fault)
+		if !ok {
+			return
+		}
 	}
 	args := RenderItems(d, items)
 	b := d.Build()
